@@ -89,6 +89,14 @@ func startTool(bin string, args []string, env []string) (*toolRun, error) {
 
 // wait waits for the tool to exit; ok=false if it is still running after d.
 func (tr *toolRun) wait(d time.Duration) (code int, ok bool) {
+	// an exit that has already happened always wins (a select between two ready cases picks at random)
+	select {
+	case <-tr.done:
+		tr.mu.Lock()
+		defer tr.mu.Unlock()
+		return tr.code, true
+	default:
+	}
 	select {
 	case <-tr.done:
 		tr.mu.Lock()
